@@ -40,6 +40,34 @@ static void model_mode(void) {
   }
 }
 
+// translator validation for the regenerated mi_os_prim_alloc_aligned (Gen/Os.lean): the first OS request of the call (the address-hinted
+// mmap, where a hint is used) is refused, so that the unhinted retry comes back unaligned and the over-allocate-and-trim fallback runs;
+// printed: what the function returned and recorded, the addresses the OS handed out, the ranges it was asked to unmap
+static void aalign_section(void) {
+  const size_t ps = _mi_os_page_size();
+  static const size_t SZ[] = { 4096, 65536, 1 << 20, 3 << 20, 32 << 20, (32 << 20) + 4096 };
+  static const size_t AL[] = { 4096, 65536, 1 << 20, 4 << 20, 32 << 20, 64 << 20 };
+  for (int rep = 0; rep < 2; rep++) for (size_t i = 0; i < 6; i++) for (size_t a = 0; a < 6; a++) for (int commit = 0; commit < 2; commit++) {
+    size_t size = SZ[i] + (rep ? ps * (size_t)(rnd() % 64) : 0), align = AL[a];
+    bool is_large = false, is_zero = false; void* base = NULL;
+    long ev0 = vm_nev;
+    verif_fail_from = 0; verif_fail_mask = (1 << VM_MMAP); verif_fail_at = (rep == 0 || (rnd() % 4) != 0) ? verif_calls : -1;
+    void* p = mi_os_prim_alloc_aligned(size, align, commit != 0, false, &is_large, &is_zero, &base);
+    verif_fail_at = -1; verif_fail_mask = 0x1e;
+    printf("AA %zu %zu %zu %d -> %zu %zu M", ps, size, align, commit, (size_t)(uintptr_t)p, (size_t)(uintptr_t)base);
+    for (long e = ev0; e < vm_nev; e++) if (vm_ev[e].kind == VM_MMAP && vm_ev[e].ok) printf(" %zu", (size_t)vm_ev[e].addr);
+    printf(" U");
+    for (long e = ev0; e < vm_nev; e++) if (vm_ev[e].kind == VM_MUNMAP) printf(" %zu %zu", (size_t)vm_ev[e].addr, vm_ev[e].size);
+    printf("\n"); n_eval++;
+    if (p != NULL) {
+      if (((uintptr_t)p % align) != 0) FAIL("os_alloc_misaligned", "mi_os_prim_alloc_aligned(%zu, %zu) = %p", size, align, p);
+      if (base != p && vm_page_state((uintptr_t)base) < 0) FAIL("os_base_not_mapped", "mi_os_prim_alloc_aligned(%zu, %zu): recorded base %p is not mapped (returned %p)", size, align, base, p);
+      mi_os_prim_free(p, size, commit ? size : 0);
+    }
+    if (vm_foreign_unmaps > 0) { FAIL("unmap_of_memory_not_owned", "mi_os_prim_alloc_aligned(%zu, %zu)", size, align); vm_foreign_unmaps = 0; }
+  }
+}
+
 // ------------------------------------------------------------------ oracle
 typedef struct { uint8_t* p; size_t n; } blk_t;
 static blk_t blocks[6000]; static int nblocks = 0;
@@ -133,7 +161,7 @@ int main(int argc, char** argv) {
   if (argc < 3) { fprintf(stderr, "usage: c11 model <seed> | c11 oracle <seed> <workload> <arena_mode> <rounds> [purge_delay]\n"); return 2; }
   uint64_t seed = strtoull(argv[2], 0, 10);
   rs ^= seed * 0x9E3779B97F4A7C15ULL; if (!rs) rs = 1; for (int i = 0; i < 8; i++) rnd();
-  if (strcmp(argv[1], "model") == 0) model_mode();
+  if (strcmp(argv[1], "model") == 0) { model_mode(); aalign_section(); }
   else oracle(atoi(argv[3]), atoi(argv[4]), atoi(argv[5]), argc > 6 ? atol(argv[6]) : 10);
   printf("STAT evaluations %ld\nDONE\n", n_eval);
   fflush(stdout);
